@@ -134,7 +134,8 @@ class ValidateTraitTupleCheck(_TupleBase):
             z3.ForAll([q], z3.Implies(z3.And(0 <= q, q < A.tuple_len(V)), A.tuple_item(V, q) != NULL)), A.tuple_len(T) >= 0, A.tuple_len(V) >= 0)
         st = self.ghosts0(st)
         return st, [T, obj, name, V], dict(T=T, V=V, obj=obj, name=name, witness={"declared_length": A.tuple_len(T), "value_is_tuple": A.is_inst(V, "PyTuple_Type"),
-                                                                                   "value_length": A.tuple_len(V)})
+                                                                                   "value_length": A.tuple_len(V)},
+                                           concretise=lambda m: dict(harness="cvalidators", family="tuple_refcount"))
 
     def c_post(self, cx, ex, ov, info, ret, st):
         T, V = info["T"], info["V"]
